@@ -125,6 +125,13 @@ def check_labels(specs, res, dialect='new', via_list=True, max_objects=40):
                 continue
             for msg, rec in zip(msgs, recs):
                 exp = rec['conn'] is mc
+                if rec['target'].ghost:
+                    # a message on an object never seen created: the tool files it under the connection `unknown`; it must at
+                    # least not be claimed by another connection's label
+                    if cmatch.matches(msg) and not exp:
+                        res.bad('connection-label-selects-wrong', '%r selects %s of another connection' % (text, str(msg)))
+                        break
+                    continue
                 if cmatch.matches(msg) != exp:
                     res.bad('connection-label-selects-wrong', '%r on %s (expected %r)' % (text, s.matcher and str(msg), exp))
                     break
@@ -164,6 +171,13 @@ def check_labels(specs, res, dialect='new', via_list=True, max_objects=40):
                     exp = rec['conn'] is mc and mc.mentions(rec, mo)
                     got = om.matches(msg)
                     res.evals += 1
+                    if rec['target'].ghost and exp:
+                        # on an object never seen created: filed under the connection `unknown` by the tool, so a connection-qualified
+                        # label does not reach it (unspecified by the statement; kept out of the expectation either way)
+                        if got:
+                            expected.append(msg)
+                        res.count('unseen-target-mentions(unspecified)')
+                        continue
                     if exp:
                         expected.append(msg)
                     if got and not exp:
@@ -194,7 +208,7 @@ class Labels(Stage):
     def gen(self, d, tier):
         deep = d.chance(0.15)
         prof = dict(reuse=0.9, weights=dict(deep=80, message=12, delete=5, bind=3)) if deep else dict(
-            reuse=0.75, weights=dict(delete=20, bind=12, message=42, server_event=14, deep=6, sync=6))
+            reuse=0.75, weights=dict(delete=20, bind=12, message=42, server_event=14, deep=6, sync=6, midsession=18))
         # one connection when driving an id deep, otherwise the messages spread and no id gets past letter m
         specs = histgen.history(d, nconn=1 if deep else d.int(1, 3), nmsg=d.int(64, 90) if deep else d.int(4, 36), profile=prof)
         return dict(dialect=d.choice(['new', 'old']), specs=specs)
